@@ -110,7 +110,7 @@ def run(run):
     reqs = ["memo_sph_total"]
     kinds = ["total"]
     # (1) projection histories with predicted bitmap: random, and fill-all in random order followed by a warm replay
-    nh = 40 if quick else 600
+    nh = run.n(40, 600)
     for _ in range(nh):
         n = rng.choice([1, 2, 3, 5, 8, 13, 30])
         reqs.append("hist " + ";".join(proj_call(rng) for _ in range(n)))
@@ -124,14 +124,14 @@ def run(run):
         kinds.append("fill")
     # (2) public API calls: fresh thread vs after a random prefix vs after a fill-all prefix
     fillall = [proj_call(rng, s) for s in rng.sample(all_slots, len(all_slots))]
-    api = [api_call(rng) for _ in range(60 if quick else 1500)]
+    api = [api_call(rng) for _ in range(run.n(60, 1500))]
     base = len(reqs)
     for c in api:
         reqs.append("hist " + c); kinds.append("fresh")
     for c in api:
         pre = [api_call(rng) for _ in range(rng.randint(1, 6))]
         reqs.append("hist " + ";".join(pre + [c])); kinds.append("after-random")
-    for c in api[: (20 if quick else 200)]:
+    for c in api[: run.n(20, 200)]:
         reqs.append("hist " + ";".join(fillall + [c])); kinds.append("after-fill")
     for c in api:
         rel = related_calls(rng, c)
